@@ -1958,3 +1958,150 @@ Proof.
       [intros m0 q Y; destruct (B m0 q Y) as [B1 B2]; split; [apply Wk; exact B1|exact B2]|intros m0 q x Y; destruct (C m0 q x Y) as [C1 C2]; split; [apply Wk; exact C1|exact C2]]].
   - intros u c0 Hq Wc. destruct (Nat.eq_dec u t) as [->|Hu]; [rewrite Hcu2 in Hq; discriminate Hq|]. rewrite (Ho u Hu) in *. apply (f_pr _ _ _ R u c0 Hq Wc).
 Qed.
+
+Lemma npcmd_dec : forall c, npcmd c \/ ~ npcmd c.
+Proof. intro c. destruct c; try (left; exact Logic.I); right; intros []. Qed.
+
+Lemma settle_EF : forall st m t ev done st' ev' pe pf,
+  CInv (core st) -> SlInv st -> XInv st -> ERel pe st m -> FRel pf st m -> BRel st (m14_b m) -> (t < nthr st)%nat ->
+  (forall j, In j (tfinal (thr st t)) -> finok j) -> (t = main -> tfinal (thr st t) = []) ->
+  (done = None -> pe = ENone /\ pf = FNone /\ forall c, tcur (thr st t) = Some c -> nsp c) ->
+  (forall v, done = Some v -> tcont (thr st t) = [] /\ exists c, tcur (thr st t) = Some c /\ pe = pendE t c (Some v) /\ pf = pendF t c (Some v) /\
+                              imm_ok c v /\ (wcmd c -> ~ wkr st t)) ->
+  settle st t ev done = (st', ev') ->
+  exists tail, ev' = ev ++ tail /\ ERel ENone st' (fold_left m14r_step (evs t tail) m) /\ FRel FNone st' (fold_left m14r_step (evs t tail) m) /\
+               fold_left m14_step (evs t tail) m = fold_left m14r_step (evs t tail) m.
+Proof.
+  intros st m t ev done st' ev' pe pf I S X RE RF B Ht Hfin Hfm HdN HdS H. unfold settle in H.
+  destruct (norm (2 * (cont_size (tcont (th st t)) + length (tacc (th st t))) + 2) (sl st) (tacc (th st t)) (tcont (th st t)) ev)
+    as [[[s1 acc1] k1] ev1] eqn:En.
+  cbn zeta in H.
+  destruct (norm_dels _ _ _ _ _ _ _ _ _ En) as [dels [Edels Hdels]].
+  assert (Pd : forall e, In e dels -> c14_plain e) by (intros e He; destruct (Hdels e He) as [x [h ->]]; exact Logic.I).
+  assert (Pdf : forall e, In e dels -> f14_plain e) by (intros e He; destruct (Hdels e He) as [x [h ->]]; exact Logic.I).
+  assert (Pd' : forall e, In e dels -> plain e) by (intros e He; destruct (Hdels e He) as [x [h ->]]; exact Logic.I).
+  assert (Pdn : forall e, In e dels -> forall v, e <> ERet v) by (intros e He v; destruct (Hdels e He) as [x [h ->]]; discriminate).
+  set (m1 := fold_left m14r_step (evs t dels) m).
+  assert (Sm : r14_same m m1) by (apply m14r_plain_fold; exact Pd).
+  assert (Smf : f14_same m m1) by (apply m14r_fplain_fold; exact Pdf).
+  assert (Eq1 : fold_left m14_step (evs t dels) m = m1) by (symmetry; apply r_eq_fold; exact Pdn).
+  assert (Gt1 : get_tid t (b_cur (m14_b m1)) = tcur (thr st t)).
+  { unfold m1. rewrite m14r_b_fold. destruct (mb_fold_plain t dels (m14_b m) Pd') as [A1 _]. cbn zeta in A1. rewrite A1.
+    apply (br_cur st _ B t Ht). }
+  set (st1 := set_sl (upd_th st t (set_tacc (set_tcont (th st t) k1) acc1)) s1) in *.
+  assert (T1 : tcont (thr st1 t) = k1) by (unfold st1; cbn -[Nat.eqb]; unfold updN, th; rewrite Nat.eqb_refl; reflexivity).
+  assert (Th1 : forall u, tcur (thr st1 u) = tcur (thr st u) /\ tret (thr st1 u) = tret (thr st u) /\ tfinal (thr st1 u) = tfinal (thr st u) /\ tpipe (thr st1 u) = tpipe (thr st u)).
+  { intro u. unfold st1. cbn -[Nat.eqb]. unfold updN, th. destruct (Nat.eqb_spec u t) as [E|E]; [rewrite E|]; auto. }
+  assert (To1 : forall u, u <> t -> tcont (thr st1 u) = tcont (thr st u)).
+  { intros u Hu. unfold st1. cbn -[Nat.eqb]. unfold updN, th. destruct (Nat.eqb_spec u t); [contradiction|reflexivity]. }
+  assert (N1 : nthr st1 = nthr st) by reflexivity.
+  assert (Steq : s1 = sl st -> k1 = tcont (thr st t) -> ERel pe st1 m1 /\ FRel pf st1 m1).
+  { intros E1 E2. split.
+    - apply (e_msame _ _ m); [|exact Sm]. apply (e_steq _ st); auto; try (unfold st1; cbn; congruence).
+      intro u. destruct (Th1 u) as [A [_ [C D]]]. split; [|auto]. destruct (Nat.eq_dec u t) as [->|Hu]; [rewrite T1; exact E2|apply To1; exact Hu].
+    - apply (f_msame _ _ m); [|exact Smf]. apply (f_steq _ st); auto.
+      intro u. destruct (Th1 u) as [A [B0 [C D]]]. split; [|auto]. destruct (Nat.eq_dec u t) as [->|Hu]; [rewrite T1; exact E2|apply To1; exact Hu]. }
+  assert (R1 : ERel pe st1 m1 /\ FRel pf st1 m1).
+  { destruct (tcont (thr st t)) as [|i0 r0] eqn:Ek.
+    - unfold th in En. rewrite Ek, norm_nil in En. injection En as E1 _ E3 _. apply Steq; auto.
+    - destruct (Nat.eq_dec t main) as [->|Hn].
+      + change st1 with (NS st s1 acc1 k1). clear H Steq T1 Th1 To1. clearbody st1. split.
+        * apply (e_msame _ _ m); [|exact Sm]. eapply norm_E; [exact X| | | |exact En].
+          -- eapply CInv_ceq; [|exact I]. unfold NS. same_core.
+          -- unfold NS. sl_irr st.
+          -- apply (e_steq _ st); auto. intro u. unfold NS. repeat split; thr_simpl.
+        * apply (f_msame _ _ m); [|exact Smf]. eapply norm_F; [exact X| |exact En].
+          apply (f_steq _ st); auto. intro u. unfold NS. repeat split; thr_simpl.
+      + rewrite norm_id in En; [|intros j Hj; apply (i_mainonly _ I t Hn); exact Hj].
+        injection En as E1 _ E3 _. apply Steq; auto. unfold th in E3. rewrite <- E3. exact Ek. }
+  destruct R1 as [RE1 RF1].
+  assert (Hk1 : done <> None -> k1 = []).
+  { intro D. destruct done as [v|]; [|exfalso; apply D; reflexivity]. destruct (HdS v eq_refl) as [Y _]. unfold th in En. rewrite Y, norm_nil in En. injection En as _ _ E3 _. auto. }
+  assert (F1 : tfinal (thr st1 t) = tfinal (thr st t)) by apply Th1.
+  assert (C1 : tcur (thr st1 t) = tcur (thr st t)) by apply Th1.
+  assert (P1 : tpipe (thr st1 t) = tpipe (thr st t)) by apply Th1.
+  assert (Ht1 : (t < nthr st1)%nat) by exact Ht.
+  assert (Wk1 : wkr st1 t <-> wkr st t) by (unfold wkr; rewrite N1, P1; tauto).
+  assert (Tr1 : tret (thr st1 t) = tret (thr st t)) by apply Th1.
+  clearbody st1.
+  match type of H with (let '(st2, ev2) := ?E in _) = _ => destruct E as [st2 ev2] eqn:E2 end.
+  assert (R2 : exists tl2, ev2 = ev1 ++ tl2 /\ ERel ENone st2 (fold_left m14r_step (evs t tl2) m1) /\ FRel FNone st2 (fold_left m14r_step (evs t tl2) m1) /\
+                           fold_left m14_step (evs t tl2) m1 = fold_left m14r_step (evs t tl2) m1 /\
+                           tfinal (thr st2 t) = tfinal (thr st t) /\ nthr st2 = nthr st).
+  { assert (RetEq : forall v, m14_bad (m14_step m1 (t, ERet v)) = m14_bad m1 -> m14_step m1 (t, ERet v) = m14r_step m1 (t, ERet v)).
+    { intros v Hb. symmetry. apply r_eq_step. intros _. exact Hb. }
+    destruct done as [v|].
+    - inversion E2; subst st2 ev2. exists [ERet v]. split; [reflexivity|].
+      destruct (HdS v eq_refl) as [_ [c [Hu [Hpe [Hpf [Io Nw]]]]]]. cbn [evs map fold_left].
+      assert (K1 : tcont (thr st1 t) = []) by (rewrite T1; apply Hk1; discriminate).
+      assert (G1 : get_tid t (b_cur (m14_b m1)) = Some c) by (rewrite Gt1; exact Hu).
+      assert (Hu1 : tcur (thr st1 t) = Some c) by (rewrite C1; exact Hu).
+      assert (ER : ERel ENone (upd_th st1 t (set_tcur (th st1 t) None)) (m14r_step m1 (t, ERet v))).
+      { eapply (e_ret pe st1 _ m1 t c v RE1 Ht1);
+          [exact Hu1|exact K1|exact G1|right; exact Hpe|reflexivity|reflexivity|reflexivity|reflexivity|intros ? ?; thr_simpl
+          |cbn -[Nat.eqb]; unfold updN, th; rewrite ?Nat.eqb_refl; cbn -[Nat.eqb]; unfold updN, th; rewrite ?Nat.eqb_refl; cbn -[Nat.eqb]; exact K1
+          |thr_simpl|thr_simpl|thr_simpl]. }
+      assert (FR : FRel FNone (upd_th st1 t (set_tcur (th st1 t) None)) (m14r_step m1 (t, ERet v)) /\ m14_bad (m14_step m1 (t, ERet v)) = m14_bad m1).
+      { destruct (npcmd_dec c) as [Nc|Nc].
+        - assert (Pf0 : pf = FNone) by (rewrite Hpf; destruct c; try reflexivity; destruct Nc). rewrite Pf0 in RF1.
+          eapply (f_ret_np st1 _ m1 t c v RF1 Hu1 K1 G1 Nc);
+            [reflexivity|reflexivity|intros ? ?; thr_simpl
+            |cbn -[Nat.eqb]; unfold updN, th; rewrite ?Nat.eqb_refl; cbn -[Nat.eqb]; unfold updN, th; rewrite ?Nat.eqb_refl; cbn -[Nat.eqb]; exact K1
+            |thr_simpl|thr_simpl].
+        - assert (Pe0 : pe = ENone) by (rewrite Hpe; destruct c; try reflexivity; exfalso; apply Nc; exact Logic.I). rewrite Pe0 in RE1.
+          eapply (f_ret pf st1 _ m1 t c v RE1 RF1 Ht1 Hu1 K1 G1);
+            [right; split; [exact Hpf|split; [exact Io|intros Wc W; apply (Nw Wc); apply Wk1; exact W]]
+            |reflexivity|reflexivity|intros ? ?; thr_simpl
+            |cbn -[Nat.eqb]; unfold updN, th; rewrite ?Nat.eqb_refl; cbn -[Nat.eqb]; unfold updN, th; rewrite ?Nat.eqb_refl; cbn -[Nat.eqb]; exact K1
+            |thr_simpl|thr_simpl]. }
+      destruct FR as [FR Fb].
+      split; [exact ER|]. split; [exact FR|]. split; [apply RetEq; exact Fb|]. split; [rewrite <- F1; thr_simpl|exact N1].
+    - destruct (HdN eq_refl) as [Pn [Pfn Nsp]]. subst pe pf. destruct k1.
+      + destruct (tcur (th st1 t)) as [c|] eqn:Ec.
+        * inversion E2; subst st2 ev2. exists [ERet (tret (th st1 t))]. split; [reflexivity|].
+          cbn [evs map fold_left]. unfold th in Ec.
+          assert (G1 : get_tid t (b_cur (m14_b m1)) = Some c) by (rewrite Gt1, <- C1; exact Ec).
+          assert (Nc : nsp c) by (apply Nsp; rewrite <- C1; exact Ec).
+          match goal with |- ERel ENone ?S2 _ /\ _ => set (st2 := S2) end.
+          assert (Ho2 : forall u, u <> t -> thr st2 u = thr st1 u) by (intros u Hu; unfold st2; destruct c; thr_simpl).
+          assert (Hc2 : tcont (thr st2 t) = []).
+          { unfold st2. destruct c; cbn -[Nat.eqb]; unfold updN, th; rewrite ?Nat.eqb_refl; cbn -[Nat.eqb]; unfold updN, th; rewrite ?Nat.eqb_refl; cbn -[Nat.eqb]; exact T1. }
+          assert (Hf2 : tfinal (thr st2 t) = tfinal (thr st1 t)) by (unfold st2; destruct c; thr_simpl).
+          assert (Hp2 : tpipe (thr st2 t) = tpipe (thr st1 t)) by (unfold st2; destruct c; thr_simpl).
+          assert (Hu2 : tcur (thr st2 t) = None) by (unfold st2; destruct c; thr_simpl).
+          assert (Hn2 : nthr st2 = nthr st1) by (unfold st2; destruct c; reflexivity).
+          assert (Hs2 : sl st2 = sl st1) by (unfold st2; destruct c; reflexivity).
+          assert (Hd2 : dl st2 = dl st1) by (unfold st2; destruct c; reflexivity).
+          assert (Hpp2 : pps st2 = pps st1) by (unfold st2; destruct c; reflexivity).
+          clearbody st2.
+          assert (ER : ERel ENone st2 (m14r_step m1 (t, ERet (tret (thr st1 t))))).
+          { apply (e_ret ENone st1 st2 m1 t c _ RE1 Ht1 Ec T1 G1); auto. }
+          assert (FR : FRel FNone st2 (m14r_step m1 (t, ERet (tret (thr st1 t)))) /\ m14_bad (m14_step m1 (t, ERet (tret (thr st1 t)))) = m14_bad m1).
+          { destruct (npcmd_dec c) as [Nc'|Nc'].
+            - apply (f_ret_np st1 st2 m1 t c _ RF1 Ec T1 G1 Nc'); auto.
+            - apply (f_ret FNone st1 st2 m1 t c _ RE1 RF1 Ht1 Ec T1 G1); auto. }
+          destruct FR as [FR Fb].
+          split; [exact ER|]. split; [exact FR|]. split; [apply RetEq; exact Fb|]. split; [rewrite Hf2; exact F1|rewrite Hn2; exact N1].
+        * inversion E2; subst st2 ev2. exists []. rewrite app_nil_r. split; [reflexivity|]. cbn. split; [exact RE1|split; [exact RF1|split; [reflexivity|split; [exact F1|exact N1]]]].
+      + inversion E2; subst st2 ev2. exists []. rewrite app_nil_r. split; [reflexivity|]. cbn. split; [exact RE1|split; [exact RF1|split; [reflexivity|split; [exact F1|exact N1]]]]. }
+  destruct R2 as [tl2 [E2' [RE2 [RF2 [Eq2 [F2 N2]]]]]].
+  set (m2 := fold_left m14r_step (evs t tl2) m1) in *.
+  assert (Fin : exists tl3, ev' = ev2 ++ tl3 /\ ERel ENone st' (fold_left m14r_step (evs t tl3) m2) /\ FRel FNone st' (fold_left m14r_step (evs t tl3) m2) /\
+                            fold_left m14_step (evs t tl3) m2 = fold_left m14r_step (evs t tl3) m2).
+  { destruct (tcont (th st2 t)) eqn:Ec; [|inversion H; subst; exists []; rewrite app_nil_r; cbn; auto].
+    destruct (tscript (th st2 t)) eqn:Es; [|inversion H; subst; exists []; rewrite app_nil_r; cbn; auto].
+    destruct (tcur (th st2 t)) eqn:Eu; [inversion H; subst; exists []; rewrite app_nil_r; cbn; auto|].
+    destruct (tfinal (th st2 t)) eqn:Ef; inversion H; subst st' ev'; clear H.
+    - destruct (is_main t); [exists []; rewrite app_nil_r; cbn; auto|].
+      exists [EExit]. split; [reflexivity|]. cbn [evs map fold_left]. split; [apply e_exit; auto; rewrite N2; exact Ht|].
+      split; [apply (f_msame _ _ m2); [exact RF2|apply m14r_fplain_step; exact Logic.I]|].
+      symmetry. apply r_eq_step. intros _. apply step_bad_nonret; [intros v Y; discriminate Y|reflexivity].
+    - exists []. rewrite app_nil_r. split; [reflexivity|]. cbn [evs map fold_left]. unfold th in *.
+      assert (Nm : t <> main) by (intro E; apply Hfm in E; rewrite <- F2, Ef in E; discriminate E).
+      rewrite <- Ef. split; [apply e_final; auto; intros j Hj; apply Hfin; rewrite <- F2; exact Hj|].
+      split; [apply f_final; auto; intros j Hj; apply Hfin; rewrite <- F2; exact Hj|reflexivity]. }
+  destruct Fin as [tl3 [E3 [RE3 [RF3 Eq3]]]].
+  exists (dels ++ tl2 ++ tl3). split; [rewrite E3, E2', Edels; rewrite <- !app_assoc; reflexivity|].
+  rewrite !evs_app, !fold_left_app. fold m1. fold m2. split; [exact RE3|]. split; [exact RF3|].
+  rewrite Eq1, Eq2. fold m2. exact Eq3.
+Qed.
